@@ -20,6 +20,166 @@ def obligations(tier, seed):
     # autodiff Jacobian, all weights symbolic under the C09/C11 invariant (larger blocks / depth 2 / conditional variants do not discharge)
     for nm in ("bnaf2d0", "bnaf2"):
         tasks.append(dict(name=nm + "/fwd", func="c02x:ob_logdet_fwd_all", kwargs=dict(spec_name=nm), cost=8.0))
+    tasks.append(dict(name="bnaf-blocks", func="c02x:ob_bnaf_blocks", kwargs={}, cost=6.0, replay=dict(func="c02x:replay_bnaf_blocks", kwargs={})))
     for nm in (c01x.FWD_ONLY_QUICK if tier == "quick" else c01x.FWD_ONLY_THOROUGH):
         tasks.append(dict(name=nm + "/fwd", func="c02x:ob_logdet_fwd_all", kwargs=dict(spec_name=nm), cost=6.0))
     return tasks
+
+
+def ob_bnaf_blocks():
+    """building blocks of the BlockAutoregressiveNetwork log-determinant (the end-to-end obligation only discharges for block_dim 1):
+    (1) the layer's log-Jacobian callable returns log of the block-diagonal blocks of the unwrapped weight, block b entry (i, j) =
+        W[b*r + i, b*c + j], for every block shape; (2) logmatmulexp(x, y) == log(exp(x) @ exp(y)) for all real matrices, also with the
+        -inf off-diagonal entries the activation Jacobians carry"""
+    import warnings
+    import jax
+    jax.config.update("jax_enable_x64", True)
+    import jax.numpy as jnp
+    import jax.random as jr
+    import numpy as np
+    import equinox as eqx
+    from .. import jx
+    from ..jx import Ctx, Interp, set_path
+    from ..sym import symarr, trace
+    from ..core import rec
+    with warnings.catch_warnings():
+        warnings.simplefilter("ignore")
+        from flowjax.bijections.block_autoregressive_network import block_autoregressive_linear, logmatmulexp
+    out = []
+    rp = dict(func="c02x:replay_bnaf_blocks", kwargs={})
+    for n_blocks, bs in ((2, (2, 2)), (3, (2, 2)), (2, (2, 1)), (2, (1, 2)), (2, (3, 2)), (1, (2, 3)), (3, (1, 1))):
+        nm = f"C02/BNAF layer log-Jacobian callable, {n_blocks} blocks of shape {bs}: entry [b, i, j] == log W[b*{bs[0]}+i, b*{bs[1]}+j] (block-diagonal blocks, row-major)"
+        with warnings.catch_warnings():
+            warnings.simplefilter("ignore")
+            lin, fn = block_autoregressive_linear(jr.PRNGKey(0), n_blocks=n_blocks, block_shape=bs)
+        R, C = bs[0] * n_blocks, bs[1] * n_blocks
+        W = symarr("w", (R, C))
+        ctx = Ctx()
+        I = Interp(ctx)
+        pre = [W[b * bs[0] + i, b * bs[1] + j] > 0 for b in range(n_blocks) for i in range(bs[0]) for j in range(bs[1])]
+        set_path(pre, ctx.facts)
+        try:
+            got = I.run(trace(lambda w: fn(eqx.tree_at(lambda l: l.weight, lin, w)), jnp.ones((R, C))), W)[0]
+        except jx.Unsupported as e:
+            set_path(None)
+            out.append(rec(nm, "error", detail=f"unsupported: {e}"))
+            continue
+        set_path(None)
+        bad = None
+        if tuple(got.shape) != (n_blocks,) + tuple(bs):
+            bad = f"shape {got.shape}"
+        else:
+            for b in range(n_blocks):
+                for i in range(bs[0]):
+                    for j in range(bs[1]):
+                        want = jx.slog(ctx, W[b * bs[0] + i, b * bs[1] + j])
+                        st, m = jx.prove_eq(ctx, pre, jx.split(got[b, i, j])[0], jx.split(want)[0], name=nm)
+                        if st != "unsat":
+                            bad = f"entry [{b},{i},{j}]: {st}"
+                            break
+                    if bad:
+                        break
+                if bad:
+                    break
+        if bad is None:
+            out.append(rec(nm, "discharged", vacuity=True))
+        else:
+            ok, msg = replay_bnaf_blocks()
+            out.append(rec(nm, "violation" if ok else "inconclusive", detail=f"{bad} | {msg}", replay=rp))
+    NI = float("-inf")
+    for label, xs, ys, xmask, ymask in (("(2,2) @ (2,2)", (2, 2), (2, 2), None, None), ("(1,2) @ (2,2)", (1, 2), (2, 2), None, None), ("(2,2) @ (2,1)", (2, 2), (2, 1), None, None),
+                                        ("(2,2) @ diag with -inf off the diagonal", (2, 2), (2, 2), None, "diag"), ("diag with -inf off the diagonal @ (2,1)", (2, 2), (2, 1), "diag", None)):
+        nm = f"C02/logmatmulexp {label} == log(exp(x) @ exp(y)) for all real entries"
+        X, Y = symarr("x", xs), symarr("y", ys)
+
+        def masked(A, mask):
+            A = A.copy()
+            if mask == "diag":
+                for idx in np.ndindex(A.shape):
+                    if idx[0] != idx[1]:
+                        A[idx] = NI
+            return A
+        Xm, Ym = masked(X, xmask), masked(Y, ymask)
+        ctx = Ctx()
+        I = Interp(ctx)
+        set_path([], ctx.facts)
+        try:
+            got = I.run(trace(logmatmulexp, jnp.zeros(xs), jnp.zeros(ys)), Xm, Ym)[0]
+        except jx.Unsupported as e:
+            set_path(None)
+            out.append(rec(nm, "error", detail=f"unsupported: {e}"))
+            continue
+        set_path(None)
+        bad = None
+        for i in range(xs[0]):
+            for k in range(ys[1]):
+                S = None
+                for j in range(xs[1]):
+                    if (xmask == "diag" and i != j) or (ymask == "diag" and j != k):
+                        continue          # exp(-inf) = 0
+                    e_ = jx.toreal(jx._sexp_plain(ctx, jx.toreal(X[i, j]) + jx.toreal(Y[j, k])))
+                    S = e_ if S is None else S + e_
+                gt, go, gi = jx.split(got[i, k])
+                if S is None:
+                    g = jx.band(go, gi == -1)                      # an empty sum: log 0 = -inf
+                    st, m = jx.check(ctx, [], jx.toz(g) if jx.is_z(g) else z3_bool(g), name=nm)
+                else:
+                    want = jx.toreal(jx._slog_plain(ctx, S)[0])
+                    okg = jx.band(go, gi == 0)
+                    st, m = jx.check(ctx, [], jx.toz(okg) if jx.is_z(okg) else z3_bool(okg), name=nm + " defined")
+                    if st == "unsat":
+                        st, m = jx.prove_eq(ctx, [], gt, want, name=nm)
+                if st != "unsat":
+                    bad = f"entry [{i},{k}]: {st}"
+                    break
+            if bad:
+                break
+        if bad is None:
+            out.append(rec(nm, "discharged", vacuity=True))
+        else:
+            ok, msg = replay_bnaf_blocks()
+            out.append(rec(nm, "violation" if ok else "inconclusive", detail=f"{bad} | {msg}", replay=rp))
+    return out
+
+
+def z3_bool(b):
+    import z3
+    return z3.BoolVal(bool(b))
+
+
+def replay_bnaf_blocks():
+    import warnings
+    import jax
+    jax.config.update("jax_enable_x64", True)
+    import jax.numpy as jnp
+    import jax.random as jr
+    import numpy as np
+    import equinox as eqx
+    with warnings.catch_warnings():
+        warnings.simplefilter("ignore")
+        from flowjax.bijections.block_autoregressive_network import block_autoregressive_linear, logmatmulexp
+        import flowjax.bijections as fb
+    bad = []
+    rng = np.random.RandomState(0)
+    for n_blocks, bs in ((2, (2, 2)), (3, (2, 2)), (2, (2, 1)), (2, (1, 2)), (2, (3, 2))):
+        with warnings.catch_warnings():
+            warnings.simplefilter("ignore")
+            lin, fn = block_autoregressive_linear(jr.PRNGKey(0), n_blocks=n_blocks, block_shape=bs)
+        W = np.abs(rng.normal(size=(bs[0] * n_blocks, bs[1] * n_blocks))) + 0.1
+        got = np.asarray(fn(eqx.tree_at(lambda l: l.weight, lin, jnp.asarray(W))))
+        want = np.stack([np.log(W[b * bs[0]:(b + 1) * bs[0], b * bs[1]:(b + 1) * bs[1]]) for b in range(n_blocks)])
+        if got.shape != want.shape or not np.allclose(got, want):
+            bad.append(f"log-Jacobian callable for {n_blocks} blocks of {bs}: {got.tolist()} vs log of the diagonal blocks {want.tolist()}")
+    x, y = rng.normal(size=(2, 2)), rng.normal(size=(2, 2))
+    if not np.allclose(np.asarray(logmatmulexp(jnp.asarray(x), jnp.asarray(y))), np.log(np.exp(x) @ np.exp(y))):
+        bad.append("logmatmulexp differs from log(exp(x) @ exp(y))")
+    # end to end: depth 2, block_dim 2 against the autodiff Jacobian
+    with warnings.catch_warnings():
+        warnings.simplefilter("ignore")
+        b = fb.BlockAutoregressiveNetwork(jr.PRNGKey(0), dim=3, depth=2, block_dim=2)
+    xx = jnp.asarray(rng.normal(size=3))
+    ld = float(b.transform_and_log_det(xx)[1])
+    lad = float(np.linalg.slogdet(np.asarray(jax.jacfwd(b.transform)(xx)))[1])
+    if abs(ld - lad) > 1e-6 * (1 + abs(lad)):
+        bad.append(f"BlockAutoregressiveNetwork(dim=3, depth=2, block_dim=2): reported log-det {ld} but log|det J| = {lad}")
+    return bool(bad), "; ".join(bad[:2]) or "building blocks agree with their definitions on the replay points"
